@@ -341,6 +341,10 @@ func checkC03(c *Check) {
 		}
 	}
 
+	// ---- R8 Routes hands its handlers on
+	c.Rule("R8", "shared with C11 (R6)", "Routes passes the handlers that remain after the leading method names to Route unchanged: a route registered through it runs the same chain as one registered through Get/Post", 1)
+	c.Share("C11", []string{"R6"}, 1)
+
 	// ---- R7 chain assembly
 	c.Rule("R7", "E3 provenance", "the per-request handler slice is fresh: make, then app middleware, then the route's handlers; the action comes from the application", 3)
 	checkChainAssembly(c)
